@@ -66,5 +66,7 @@ use super::*;
 
 } // mod code
 
+//@include sanity.rs
+
 } // verus!
 fn main() {}
